@@ -192,6 +192,40 @@ pub mod child {
         }));
     }
 
+    /// While this value lives, standard error is the write end of a pipe nobody reads from any
+    /// more (`tool 2>&1 | head -1`, a supervisor that closed its end): every write to it fails
+    /// with EPIPE. A library must not care; `eprintln!` panics.
+    pub struct BrokenStderr {
+        saved: i32,
+    }
+
+    impl BrokenStderr {
+        pub fn install() -> Self {
+            unsafe {
+                let mut fds = [0i32; 2];
+                if libc::pipe(fds.as_mut_ptr()) != 0 {
+                    crate::harness_error("pipe() failed");
+                }
+                libc::close(fds[0]);
+                let saved = libc::dup(2);
+                if saved < 0 || libc::dup2(fds[1], 2) < 0 {
+                    crate::harness_error("dup of standard error failed");
+                }
+                libc::close(fds[1]);
+                BrokenStderr { saved }
+            }
+        }
+    }
+
+    impl Drop for BrokenStderr {
+        fn drop(&mut self) {
+            unsafe {
+                libc::dup2(self.saved, 2);
+                libc::close(self.saved);
+            }
+        }
+    }
+
     pub fn begin(i: u64) {
         let stdout = std::io::stdout();
         let mut lock = stdout.lock();
